@@ -352,6 +352,11 @@ func decryptLegacy(priv *PrivateKey, ciphertext []byte, opts *DecrypterOpts) ([]
 		return nil, ErrDecryption
 	}
 
+	// C1 must be followed by C3 and a non-empty C2
+	if ciphertextLen <= c3Start+sm3.Size {
+		return nil, ErrDecryption
+	}
+
 	//B4, calculate t=KDF(x2||y2, klen)
 	var c2, c3 []byte
 	if splicingOrder == C1C3C2 {
